@@ -58,7 +58,7 @@ def case_strategy(maxops):
     })
 
 def make_case(c):
-    return {'setup': {'ndocs': c['ndocs'], 'flags': c['flags'], 'pre': c['pre'], 'vpre': c['vpre']}, 'ops': [list(o) for o in c['ops']], 'excl': sorted(ACTIVE_EXCLUSIONS)}
+    return {'setup': {'ndocs': c['ndocs'], 'flags': c['flags'], 'pre': c['pre'], 'vpre': c['vpre']}, 'ops': [list(o) for o in c['ops']], 'excl': sorted(ACTIVE_EXCLUSIONS), 'gen': 2}
 
 class H(dh.ViewHist):
     vpre = 0
